@@ -640,6 +640,7 @@ Forward(th) ==
     /\ CountOf({"forward"}) < (IF pb.mode = "grid" THEN 2 ELSE 3)
     /\ th \in {pb.th0, pb.th1}
     /\ ((~LastIs(Changers) \/ pb.mode = "ginp") => th # obj.solpar)       \* not a call that changes nothing (ginp: alternate)
+    /\ (pb.mode = "ginp" => ~LastIs({"forward"}))
     /\ LET o == [obj EXCEPT !.par = th, !.want = th, !.parobj = "fresh", !.solpar = th, !.sol = SeqSolution(pb, th)]
        IN /\ obj' = o
           /\ hist' = Append(hist, Entry("forward", "", [th |-> th, sol |-> o.sol], ObserveBy(pb, o), o))
